@@ -1,7 +1,141 @@
-/- stub: overwritten by the builder of this engine -/
-import Driver.Common
-open Lean FV FV.Drv
+/-
+Driver for E4 / Float53 + Emit (C03).  One JSON object per line.  Numbers that may exceed 2^53 are
+decimal STRINGS; a double is the exact ratio `[num, den]` (Python `float.as_integer_ratio()`), and the
+driver REJECTS a ratio that is not a representable double of the model (never rounds an operand).
 
-def handle (_ : Json) : Except String Json := throw "driver not implemented"
+  {"op":"arith","f":"add|sub|mul|div","a":[n,d],"b":[n,d]}          -> {"r":[n,d]}
+  {"op":"arith_batch","f":…,"pairs":[[an,ad,bn,bd],…]}              -> {"rs":[[n,d],…]}
+  {"op":"ofnat","n":"…"}                                             -> {"r":[n,d]}
+  {"op":"sum","vals":[[n,d],…]}                                      -> {"r":[n,d]}     (CPython sum)
+  {"op":"formula","hardMean":[n,d],"repMean":[n,d],"softMean":[n,d],"h":…,"r":…,"s":…,"expected":[n,d]}
+                                                                     -> {"fitness":[n,d],"accept":bool}
+  {"op":"eval","expected":[n,d],"seq":[{"key":k,"hard":[C…],"rep":[C…],"s":n,"softMean":[n,d]},…]}
+     C = ["cf",solved,total] | ["da",[[n,d],…]] | ["val",[n,d]] | ["raise"]
+                                                                     -> {"steps":[{"emitted":bool,"fitness":[n,d],
+                                                                          "hardMean":[n,d],"repMean":[n,d]},…]}
+-/
+import Driver.Common
+import Model.Emit
+open Lean FV FV.F FV.Generated FV.Drv
+
+def intOf (j : Json) : Except String Int :=
+  match j with
+  | .str s => match s.toInt? with
+    | some i => pure i
+    | none => throw s!"not an integer: {s}"
+  | .num n => if n.exponent == 0 then pure n.mantissa else throw "non-integer number"
+  | _ => throw "integer expected"
+
+def natOf (j : Json) : Except String Nat := do
+  let i ← intOf j
+  if i < 0 then throw "negative" else pure i.toNat
+
+def ratOf (num den : Int) : Except String Rat :=
+  if den ≤ 0 then throw "denominator must be positive" else pure (mkRat num den.toNat)
+
+/-- an operand: must be exactly representable in the model, and in its modelled range -/
+def fOfRat (q : Rat) : Except String F :=
+  let f := rnd q
+  if f.toRat == q && inRange q then pure f else throw s!"not a (normal) double: {q}"
+
+def fOf (j : Json) : Except String F := do
+  let a ← j.getArr?
+  if a.size != 2 then throw "ratio [num, den] expected"
+  fOfRat (← ratOf (← intOf a[0]!) (← intOf a[1]!))
+
+def jRat (q : Rat) : Json := Json.arr #[Json.str (toString q.num), Json.str (toString q.den)]
+def jF (f : F) : Json := jRat f.toRat
+
+def arith (f : String) (a b : F) : Except String F :=
+  match f with
+  | "add" => pure (fadd a b)
+  | "sub" => pure (fsub a b)
+  | "mul" => pure (fmul a b)
+  | "div" => if b.m == 0 then throw "division by zero" else pure (fdiv a b)
+  | _ => throw s!"unknown arithmetic op {f}"
+
+/-- results outside the normal range are not modelled: say so instead of answering -/
+def checked (f : F) (exact : Rat) : Json :=
+  if inRange exact then jF f else Json.mkObj [("out_of_range", true)]
+
+def exactOf (f : String) (a b : F) : Rat :=
+  match f with
+  | "add" => a.toRat + b.toRat
+  | "sub" => a.toRat - b.toRat
+  | "mul" => a.toRat * b.toRat
+  | _ => a.toRat / b.toRat
+
+def constraintOf (j : Json) : Except String (Option F) := do
+  let a ← j.getArr?
+  let tag ← (a[0]?.getD Json.null).getStr?
+  match tag with
+  | "cf" => return some (cfFitness (← natOf (a[1]?.getD Json.null)) (← natOf (a[2]?.getD Json.null)))
+  | "da" =>
+    let vs ← (a[1]?.getD Json.null).getArr?
+    return some (daFitness (← vs.toList.mapM fOf))
+  | "val" => return some (← fOf (a[1]?.getD Json.null))
+  | "raise" => return none
+  | _ => throw s!"unknown constraint result {tag}"
+
+def individualOf (j : Json) : Except String Individual := do
+  let key ← intOf (← j.getObjVal? "key")
+  let hard ← (← (← j.getObjVal? "hard").getArr?).toList.mapM constraintOf
+  let rep ← (← (← j.getObjVal? "rep").getArr?).toList.mapM constraintOf
+  let s ← natOf (← j.getObjVal? "s")
+  let sm ← fOf (← j.getObjVal? "softMean")
+  return ⟨key, hard, rep, s, sm⟩
+
+def evalSeq (expected : F) : EvalState → List Individual → List Json
+  | _, [] => []
+  | st, ind :: rest =>
+    let r := evaluateIndividual expected st ind
+    Json.mkObj [("emitted", Json.bool (!r.emitted.isEmpty)), ("fitness", jF r.fitness),
+                ("hardMean", jF (classMean ind.hard)), ("repMean", jF (classMean ind.rep)),
+                ("results", Json.arr ((ind.hard ++ ind.rep).map (fun o => match o with
+                  | some f => jF f
+                  | none => Json.null)).toArray)]
+      :: evalSeq expected r.state rest
+
+def handle (j : Json) : Except String Json := do
+  let op ← j.getObjValAs? String "op"
+  match op with
+  | "arith" =>
+    let f ← j.getObjValAs? String "f"
+    let a ← fOf (← j.getObjVal? "a")
+    let b ← fOf (← j.getObjVal? "b")
+    let r ← arith f a b
+    return Json.mkObj [("r", checked r (exactOf f a b))]
+  | "arith_batch" =>
+    let f ← j.getObjValAs? String "f"
+    let ps ← (← j.getObjVal? "pairs").getArr?
+    let rs ← ps.toList.mapM fun p => do
+      let q ← p.getArr?
+      if q.size != 4 then throw "[an, ad, bn, bd] expected"
+      let a ← fOfRat (← ratOf (← intOf q[0]!) (← intOf q[1]!))
+      let b ← fOfRat (← ratOf (← intOf q[2]!) (← intOf q[3]!))
+      let r ← arith f a b
+      pure (checked r (exactOf f a b))
+    return Json.mkObj [("rs", Json.arr rs.toArray)]
+  | "ofnat" =>
+    let n ← natOf (← j.getObjVal? "n")
+    return Json.mkObj [("r", jF (ofNat n))]
+  | "sum" =>
+    let vs ← (← (← j.getObjVal? "vals").getArr?).toList.mapM fOf
+    return Json.mkObj [("r", jF (pySum vs))]
+  | "formula" =>
+    let hm ← fOf (← j.getObjVal? "hardMean")
+    let rm ← fOf (← j.getObjVal? "repMean")
+    let sm ← fOf (← j.getObjVal? "softMean")
+    let h ← natOf (← j.getObjVal? "h")
+    let r ← natOf (← j.getObjVal? "r")
+    let s ← natOf (← j.getObjVal? "s")
+    let e ← fOf (← j.getObjVal? "expected")
+    let f := fitnessFormula hm rm sm h r s
+    return Json.mkObj [("fitness", jF f), ("accept", Json.bool (acceptCmp f e))]
+  | "eval" =>
+    let e ← fOf (← j.getObjVal? "expected")
+    let inds ← (← (← j.getObjVal? "seq").getArr?).toList.mapM individualOf
+    return Json.mkObj [("steps", Json.arr (evalSeq e EvalState.empty inds).toArray)]
+  | _ => throw s!"unknown op {op}"
 
 def main : IO Unit := run handle
